@@ -544,6 +544,16 @@ Proof.
     eexists. exact (L_app h Hkeys pos b hid s app Hincl la a lb E).
 Qed.
 
+Lemma chain_lookup_tb (h : heap) pos b hid s app tb : NoDup (map fst h) ->
+  incl (chain_objs pos b {| ch_head := Some hid; ch_slot := Some s; ch_app := app |}) h ->
+  In tb ({| t_id := hid; t_s := s |} :: app) -> exists o, lookup h (t_id tb) = Some (OText o) /\ x_content o = t_s tb.
+Proof.
+  intros Hkeys Hincl [<-|Hin].
+  - eexists. split; [exact (L_head h Hkeys pos b hid s app Hincl)|reflexivity].
+  - destruct (in_split _ _ Hin) as [la [lb E]].
+    eexists. split; [exact (L_app h Hkeys pos b hid s app Hincl la tb lb E)|reflexivity].
+Qed.
+
 Section Kinds.
   Variable c : cel.
   Variable inh : str.
@@ -586,5 +596,44 @@ Section Kinds.
         * exists tb. split; [|exact Eid]. apply (kid_in_subtrees t _ (atext tb) Hs).
           destruct e as [i k own data kids]. cbn [abs_el ikids ckids] in *. apply in_or_app. right.
           apply in_flat_map. exists (x, tx). split; [exact Hx|]. right. apply in_map. exact Htb.
+  Qed.
+  Lemma texts_of_chain ch : chain_ok ch = true -> chain_texts ch <> [] ->
+    exists hid s, ch = {| ch_head := Some hid; ch_slot := Some s; ch_app := ch_app ch |}
+                  /\ chain_texts ch = {| t_id := hid; t_s := s |} :: ch_app ch.
+  Proof.
+    intros Hc Hn. destruct (chain_cases _ Hc) as [[E1 [E2 E3]]|[hid [s [E1 [E2 _]]]]].
+    - exfalso. apply Hn. unfold chain_texts. rewrite E1. reflexivity.
+    - exists hid, s. split; [destruct ch; cbn in *; subst; reflexivity|]. unfold chain_texts. rewrite E1, E2. reflexivity.
+  Qed.
+  (* the nodes of the abstract tree: element-like objects and text objects with their content *)
+  Lemma node_kind_content n : In n (ids t) ->
+    (exists e inh', In e (c_subels c) /\ cid e = n /\ In (abs_el inh' e) (subtrees t))
+    \/ (exists tb o, lookup h n = Some (OText o) /\ x_content o = t_s tb /\ In (atext tb) (subtrees t) /\ t_id tb = n).
+  Proof.
+    intros Hn. destruct (ids_abs_place c inh n Hn) as [->|[e [He Hin]]].
+    { left. exists c, inh. split; [apply self_in_subels|]. split; [reflexivity|apply self_in_subtrees]. }
+    pose proof (subel_ok c e Hok He) as Heok. destruct (el_ok_parts e Heok) as [Hd [Hk _]].
+    destruct (subel_subtree c inh e He) as [inh' Hs]. pose proof (h_keys c Hnd) as Hkeys.
+    unfold c_items in Hin. apply in_app_or in Hin. destruct Hin as [Hin|Hin].
+    - right. apply in_map_iff in Hin. destruct Hin as [tb [<- Htb]].
+      destruct (texts_of_chain _ Hd) as [hid [s [Hch Et]]]; [intros E0; rewrite E0 in Htb; destruct Htb|].
+      pose proof (subel_data c e He) as Hincl. rewrite Hch in Hincl. cbn [ch_app] in Hincl. rewrite Et in Htb.
+      destruct (chain_lookup_tb h DATA (cid e) hid s _ tb Hkeys Hincl Htb) as [o [Ho Hc]].
+      exists tb, o. split; [exact Ho|]. split; [exact Hc|]. split; [|reflexivity].
+      apply (kid_in_subtrees t _ (atext tb) Hs). rewrite <- Et in Htb.
+      destruct e as [i k own data kids]. cbn [abs_el ikids cdata] in *. apply in_or_app. left. apply in_map. exact Htb.
+    - apply in_flat_map in Hin. destruct Hin as [[x tx] [Hx Hin]]. unfold kitem in Hin. cbn [fst snd] in Hin.
+      destruct Hin as [<-|Hin].
+      + left. pose proof (subels_trans c e x He (subels_kid e x tx x Hx (self_in_subels x))) as Hxe.
+        destruct (subel_subtree c inh x Hxe) as [inhx Hsx]. exists x, inhx. auto.
+      + right. apply in_map_iff in Hin. destruct Hin as [tb [<- Htb]].
+        destruct (texts_of_chain _ (Hk x tx Hx)) as [hid [s [Hch Et]]]; [intros E0; rewrite E0 in Htb; destruct Htb|].
+        destruct (in_split _ _ Hx) as [k1 [k2 Ek]]. destruct (subel_kid c Hnd e k1 x tx k2 He Ek) as [_ Hincl].
+        rewrite Hch in Hincl. cbn [ch_app] in Hincl. rewrite Et in Htb.
+        destruct (chain_lookup_tb h TAIL (cid x) hid s _ tb Hkeys Hincl Htb) as [o [Ho Hc]].
+        exists tb, o. split; [exact Ho|]. split; [exact Hc|]. split; [|reflexivity].
+        apply (kid_in_subtrees t _ (atext tb) Hs). rewrite <- Et in Htb.
+        destruct e as [i k own data kids]. cbn [abs_el ikids ckids] in *. apply in_or_app. right.
+        apply in_flat_map. exists (x, tx). split; [exact Hx|]. right. apply in_map. exact Htb.
   Qed.
 End Kinds.
